@@ -4,6 +4,7 @@ import (
 	"fmt"
 	"sort"
 	"sync"
+	"sync/atomic"
 	"testing"
 	"time"
 
@@ -382,12 +383,140 @@ func TestVerif_Forced(t *testing.T) {
 			r.Violation(key, idx, map[string]any{"scenario": "unregistered duplicate handle", "message": msg})
 		}
 	}
+	// A write transaction with an empty table set holds nothing: whatever commits or is registered while it is open must
+	// survive its Commit / Abort (it must not publish the root it started from).
+	for variant := 0; variant < 4; variant++ {
+		idx++
+		if isReplay && !(replayPart == "forced" && replayIdx == idx) {
+			continue
+		}
+		db := statedb.New()
+		tabs := concw.NewTables(db, "t", 2)
+		w0 := db.WriteTxn(tabs[0])
+		tabs[0].Insert(w0, &concw.Row{ID: "seq", V: 1})
+		w0.Commit()
+		e := db.NewHandle("empty").WriteTxn()
+		w1 := db.WriteTxn(tabs[0], tabs[1])
+		tabs[0].Insert(w1, &concw.Row{ID: "seq", V: 2})
+		tabs[1].Insert(w1, &concw.Row{ID: "seq", V: 5})
+		w1.Commit()
+		var late statedb.RWTable[*concw.Row]
+		if variant >= 2 {
+			var err error
+			late, err = statedb.NewTable(db, "late", concw.IDIndex, concw.TagIndex)
+			if err != nil {
+				r.Violation("newtable-error/empty-set", idx, map[string]any{"message": err.Error()})
+				continue
+			}
+		}
+		if variant%2 == 0 {
+			e.Commit()
+		} else {
+			e.Abort()
+		}
+		rt := db.ReadTxn()
+		key, msg := "", ""
+		if a, b := concw.Get(rt, tabs[0], "seq"), concw.Get(rt, tabs[1], "seq"); a != 2 || b != 5 {
+			key, msg = "lost-write/empty-set", fmt.Sprintf("after a write transaction with an empty table set finished: t0.seq=%d (want 2) t1.seq=%d (want 5): writes committed while it was open were overwritten", a, b)
+		} else if late != nil && db.GetTable(rt, "late") == nil {
+			key, msg = "newtable-lost/empty-set", "a table registered while a write transaction with an empty table set was open is gone after it finished"
+		}
+		r.Count("probes", 1)
+		r.Case(vkit.NewHash().Str("empty-set").Int(int64(variant)).Sum(), true)
+		if key != "" {
+			r.Violation(key, idx, map[string]any{"scenario": "empty table set", "variant": variant, "message": msg})
+		}
+	}
 	for _, v := range ctl.Violations() {
 		r.Violation("monitor/"+v[:min(40, len(v))], 0, map[string]any{"message": v})
 	}
 	for p, n := range ctl.Counts() {
 		r.Count("hook:"+p, n)
 	}
+	r.Finish()
+}
+
+// ---- throughput: disjoint writers at full speed ----
+
+// No delays, no race detector: 32 tables with one writer each committing as fast as it can (all commits meet at the root lock), a
+// goroutine registering tables and one committing empty-set transactions. Every writer is the only one of its table, so each of
+// its transactions must start from exactly what it committed last; a window of a few instructions in Commit or registerTable in
+// which a stale root can be published shows as a counter that went back.
+func TestVerif_DisjointThroughput(t *testing.T) {
+	r := vkit.Start(t, "C05", "disjoint-throughput", "exploration", "32 tables, one writer goroutine per table incrementing its own counter in back-to-back transactions (every commit passes the root lock), "+
+		"while one goroutine registers further tables and one commits write transactions with an empty table set; each transaction must read exactly the counter its writer committed last and the revision it left; "+
+		"non-trivial = all writers committed; distinct = (seed, run)")
+	r.Require("commits")
+	runs := vkit.N(3, 60)
+	per := 10000
+	r.ParallelCases(runs, 1, func(idx int) {
+		db := statedb.New()
+		const nt = 32
+		tabs := concw.NewTables(db, "d", nt)
+		var stop atomic.Bool
+		var wg, bg sync.WaitGroup
+		var commits, registered, empties atomic.Int64
+		var bad atomic.Int64
+		for ti := 0; ti < nt; ti++ {
+			wg.Add(1)
+			go func(ti int) {
+				defer wg.Done()
+				tb := tabs[ti]
+				var last int64
+				var lastRev uint64
+				for k := 0; k < per; k++ {
+					w := db.WriteTxn(tb)
+					got := concw.Get(w, tb, "seq")
+					rev := tb.Revision(w)
+					if got != last || rev != lastRev {
+						if bad.Add(1) <= 3 {
+							r.Violation("lost-write/throughput", idx, map[string]any{"message": fmt.Sprintf("table %d: transaction %d starts from seq=%d revision=%d, its only writer committed seq=%d revision=%d before", ti, k, got, rev, last, lastRev)})
+						}
+						w.Abort()
+						return
+					}
+					tb.Insert(w, &concw.Row{ID: "seq", V: got + 1})
+					lastRev = tb.Revision(w)
+					w.Commit()
+					last = got + 1
+					commits.Add(1)
+				}
+			}(ti)
+		}
+		bg.Add(2)
+		go func() {
+			defer bg.Done()
+			for k := 0; !stop.Load() && k < 2000; k++ {
+				if _, err := statedb.NewTable(db, fmt.Sprintf("x%d", k), concw.IDIndex); err != nil {
+					r.Violation("newtable-error/throughput", idx, map[string]any{"message": err.Error()})
+					return
+				}
+				registered.Add(1)
+				time.Sleep(50 * time.Microsecond)
+			}
+		}()
+		go func() {
+			defer bg.Done()
+			for !stop.Load() {
+				db.WriteTxn().Commit()
+				empties.Add(1)
+				time.Sleep(20 * time.Microsecond)
+			}
+		}()
+		wg.Wait()
+		stop.Store(true)
+		bg.Wait()
+		rt := db.ReadTxn()
+		for ti, tb := range tabs {
+			if got := concw.Get(rt, tb, "seq"); bad.Load() == 0 && got != int64(per) {
+				r.Violation("lost-write/throughput", idx, map[string]any{"message": fmt.Sprintf("table %d: final seq=%d after %d committed increments", ti, got, per)})
+			}
+		}
+		r.Count("commits", commits.Load())
+		r.Count("tables_registered_during_run", registered.Load())
+		r.Count("empty_set_commits", empties.Load())
+		r.Case(uint64(idx), commits.Load() == int64(nt*per))
+	})
 	r.Finish()
 }
 
